@@ -808,13 +808,37 @@ impl Dag {
 /// what the value-comparing oracles may demand.
 pub fn regular_point(d: &Dag, reach: &[bool], vals: &[f32]) -> bool {
     let no_nan = vals.iter().zip(reach).all(|(v, r)| !*r || !v.is_nan());
-    let no_pole = d.n.iter().zip(reach).all(|(e, r)| {
+    // Within rounding distance of a discontinuity or pole an ulp-level
+    // difference between evaluators (libm's transcendental functions are not
+    // monotone to the last bit: atan2f(0.05, -1.4e-14) < atan2f(0.05, -0.0))
+    // is amplified without bound, e.g. by tan at pi/2.  Interval enclosure
+    // itself is only promised "up to a few ulps", so such points are outside
+    // what the value-comparing oracles may demand.
+    let near = |a: f32, b: f32| (a - b).abs() <= 1e-5 * a.abs().max(b.abs()).max(1.0);
+    let near_int = |a: f32| a.is_finite() && near(a, a.round());
+    let ok = d.n.iter().zip(reach).all(|(e, r)| {
         !*r || match e {
-            Ex::B(Bin::Atan2, a, b) => vals[*a] != 0.0 && vals[*b] != 0.0,
-            Ex::B(Bin::Div | Bin::Mod, _, b) => vals[*b] != 0.0,
-            Ex::U(Un::Recip, a) => vals[*a] != 0.0,
+            Ex::B(Bin::Atan2, y, x) => {
+                // origin, and the branch cut along the negative x axis
+                !(vals[*y].abs() <= 1e-6 && vals[*x] <= 1e-6)
+                    && !(vals[*x].abs() <= 1e-6 && vals[*y].abs() <= 1e-6)
+            }
+            Ex::B(Bin::Div, _, b) => vals[*b].abs() > 1e-6,
+            Ex::B(Bin::Mod, a, b) => {
+                vals[*b].abs() > 1e-6 && !near_int(vals[*a] / vals[*b])
+            }
+            Ex::B(Bin::Compare, a, b) => !near(vals[*a], vals[*b]),
+            Ex::B(Bin::And | Bin::Or, a, _) => {
+                vals[*a] == 0.0 || vals[*a].abs() > 1e-6
+            }
+            Ex::U(Un::Recip, a) => vals[*a].abs() > 1e-6,
+            Ex::U(Un::Not, a) => vals[*a] == 0.0 || vals[*a].abs() > 1e-6,
+            Ex::U(Un::Tan, a) => vals[*a].cos().abs() > 1e-3,
+            Ex::U(Un::Floor | Un::Ceil, a) => !near_int(vals[*a]),
+            Ex::U(Un::Round, a) => !near_int(vals[*a] + 0.5),
+            Ex::U(Un::Ln, a) => vals[*a].abs() > 1e-6,
             _ => true,
         }
     });
-    no_nan && no_pole
+    no_nan && ok
 }
